@@ -9,6 +9,7 @@ open CaddyModel.C11
 #print axioms only_catchAll_when_no_certs
 #print axioms redirect_position
 #print axioms redirect_port_deterministic
+#print axioms redirect_sources_deterministic
 #print axioms deterministic_partial
 #print axioms server_flags
 #print axioms policies_same
